@@ -113,6 +113,7 @@ def run(ctx, prop=PROP, judge=judge_c04, title="peak connections in flight <= fa
     ctx.log("%d runs of the whole program under the controlled scheduler; validating traces against the model" % len(runs))
     acc = ctx.run_lines([model], cases, env={"OCAMLRUNPARAM": "l=4G"}, crash_tag="MODEL-CRASH")
     bad, nacc, nspur, samples = 0, 0, 0, []
+    nsched = nrej = 0
     dist = {}
     for (ru, n, f), res, case in zip(runs, acc, cases):
         key = "n=%d" % n
@@ -122,17 +123,21 @@ def run(ctx, prop=PROP, judge=judge_c04, title="peak connections in flight <= fa
         rec = {"n": n, "f": f, "args": ru.args, "hosts": ru.hosts, "seed": ru.seed, "spur": ru.spur, "schedule": [c for c in ru.choices if c != "sig"]}
         if e:
             bad += 1
-            ctx.violation("schedule", case=rec, expected="property holds on every schedule", observed=ru.summary(), engine="sched",
+            nsched += 1
+            if nsched <= 5:
+              ctx.violation("schedule", case=rec, expected="property holds on every schedule", observed=ru.summary(), engine="sched",
                           detail=e + "; trace tail: " + " | ".join(ru.lines[-12:]))
         elif not res.startswith("ACCEPT"):
             bad += 1
-            ctx.violation("no-failing-input-found", case=rec, expected="trace accepted by Dsh/Dispatch.v", observed=res, engine="sched",
+            nrej += 1
+            if nrej <= 3:
+              ctx.violation("no-failing-input-found", case=rec, expected="trace accepted by Dsh/Dispatch.v", observed=res, engine="sched",
                           correspondence="sched: event trace of the real program is a run of the model", detail=res + " ; events: " + case[:600])
         else:
             nacc += 1
         if len(samples) < 2 and ru.spur and n >= 3 and any(isinstance(c, int) and c <= -2 for c in ru.choices):
             samples.append({"n": n, "fanout": f, "spurious_wakeups": ru.spur, "events": " ".join(ru.model_events())[:400], "peak": ru.peak})
-        if bad >= 5:
+        if nsched >= 5:
             break
     have_input = any(v["kind"] != "no-failing-input-found" for v in ctx.violations)
     vlib.report_proof_break(ctx, have_input)
